@@ -5,6 +5,8 @@ import Voi.Drv.Curve
 import Voi.Drv.Merlin
 import Voi.Drv.X25519
 import Voi.Drv.Ristretto
+import Voi.Drv.H2C
+import Voi.Drv.ECVRF
 namespace Voi.Drv
 
 structure DrvState where
@@ -22,6 +24,9 @@ def dispatch (st : DrvState) (ws : List String) : DrvState × String :=
   | "S0" :: op :: a => (st, handleS0 op a)
   | "X1" :: op :: a => (st, handleX1 op a)
   | "T1" :: op :: a => (st, handleT1 op a)
+  | "H1" :: op :: a => (st, handleH1 op a)
+  | "H2" :: op :: a => (st, handleH2 op a)
+  | "E1" :: op :: a => (st, handleE1 op a)
   | _ => (st, "bad-op")
 
 end Voi.Drv
